@@ -26,6 +26,8 @@ SP(n, ones) == [t |-> "sparse", len |-> n, ones |-> SetToSortSeq(ones, <)]
 RL(n, ones) == [t |-> "rl", len |-> n, ones |-> SetToSortSeq(ones, <)]
 WMC(vs) == [t |-> "wmcore", vals |-> vs]
 WM(vs) == [t |-> "wm", vals |-> vs]
+\* a wavelet matrix core over full 64-bit items (values as sets of bit positions): 64 levels
+WMC64(vs) == [t |-> "wmcore64", vals |-> vs]
 
 Sups == {<< >>, <<"rank">>, <<"select">>, <<"select_zero">>, <<"rank", "select">>, <<"rank", "select_zero">>,
          <<"select", "select_zero">>, <<"rank", "select", "select_zero">>}
@@ -40,7 +42,8 @@ Ints == {IntV(1, << >>), IntV(64, << >>), IntV(1, <<{0}, {}, {0}>>), IntV(7, <<{
 BVs == {BV(0, {}, << >>)} \cup {BV(3, {1}, s) : s \in Sups} \cup {BV(65, {0, 63, 64}, s) : s \in {<< >>, <<"rank", "select", "select_zero">>}}
        \cup {BV(600, {5, 511, 512, 599}, s) : s \in {<<"rank">>, <<"select_zero">>}}
 Compressed == {SP(0, {}), SP(10, {1, 5}), SP(100, {0, 99}), SP(8, 0..7), RL(0, {}), RL(10, {1, 5}), RL(100, {0, 1, 2, 50, 99}), RL(7, 0..6)}
-Wavelets == {WMC(<< >>), WMC(<<1>>), WMC(<<1, 0, 3, 1>>), WM(<< >>), WM(<<0>>), WM(<<1, 0, 3, 1, 7>>)}
+Wavelets == {WMC(<< >>), WMC(<<1>>), WMC(<<1, 0, 3, 1>>), WM(<< >>), WM(<<0>>), WM(<<1, 0, 3, 1, 7>>),
+             WMC64(<<All64, {63}, {}, {0, 63}>>), WMC64(<<{62}, {1}>>)}
 
 FullPool == Scalars \cup Vectors \cup ByteVecs \cup Options \cup Raws \cup Ints \cup BVs \cup Compressed \cup Wavelets
 MapPool == {x \in FullPool : Mappable(x)}
